@@ -263,7 +263,7 @@ func runC02(ctx *core.Ctx) {
 		nd := &gen.Node{Name: el, Attrs: env.Attrs(cs.R, el), NoEnd: true}
 		return gen.Serialize(cs.R, []*gen.Node{nd}, 1+cs.R.Intn(3)), true
 	}
-	docWorkload(ctx, spec.GenOpts{Styles: true}, ctx.N(3000, 20000), ctx.N(200, 400), ctx.N(3, 4), []string{"ugc", "pattern-everything", "foreign"}, single, c02Judge)
+	docWorkload(ctx, spec.GenOpts{Styles: true}, ctx.N(3000, 50000), ctx.N(200, 400), ctx.N(3, 4), []string{"ugc", "pattern-everything", "foreign"}, single, c02Judge)
 	ctx.MinNontrivial(int64(ctx.N(5000, 100000)))
 	ctx.Floor("output_attributes_judged", 20000)
 	ctx.Floor("bare_tags_judged", 5000)
